@@ -25,16 +25,41 @@ type s16Event struct {
 	Gas     uint64
 }
 
+// stepRec: one traced step in diagnosis mode, 16 bytes. Digest covers depth,
+// pc, opcode, executing address, error class, the stack (gas operand of calls
+// masked) and the memory, so equal digests mean equal steps.
 type stepRec struct {
-	Depth  int
-	PC     uint64
-	Op     byte
-	Addr   addr
-	Digest uint64 // stack (gas operand of calls masked) and memory
-	Err    string
+	Digest uint64
+	PC     uint32
+	Depth  uint16
+	Op     uint8
+	ErrIdx uint8 // index into rec.errNames, 0 = no error
 }
 
 const maxSteps = 3000000
+
+type addrAt struct {
+	step int
+	a    addr
+}
+
+func (r *rec) errAt(i int) string {
+	if e := r.trace[i].ErrIdx; e > 0 {
+		return r.errNames[e-1]
+	}
+	return ""
+}
+
+func (r *rec) addrAtStep(i int) addr {
+	var a addr
+	for _, x := range r.addrTrace {
+		if x.step > i {
+			break
+		}
+		a = x.a
+	}
+	return a
+}
 
 type rec struct {
 	topIsCreate bool
@@ -52,6 +77,8 @@ type rec struct {
 	oversize    bool // RETURN of more than 24576 bytes from an init frame
 	diag        bool
 	trace       []stepRec
+	errNames    []string
+	addrTrace   []addrAt // executing address, recorded whenever it changes
 	lastCreated bool
 }
 
@@ -131,12 +158,35 @@ func (r *rec) step(depth int, pc uint64, op byte, gas uint64, a addr, stack []*b
 			h = fnv(h, []byte{0xff})
 		}
 		h = fnv(h, []byte{byte(len(mem)), byte(len(mem) >> 8), byte(len(mem) >> 16)})
-		h = fnv(h, mem)
-		sr := stepRec{Depth: depth, PC: pc, Op: op, Addr: a, Digest: h, Err: normErr(err)}
-		if fault {
-			sr.Err = "fault:" + sr.Err
+		if len(mem) <= 8192 {
+			h = fnv(h, mem)
+		} else { // attribution aid only: sample large memories
+			h = fnv(h, mem[:4096])
+			h = fnv(h, mem[len(mem)-4096:])
 		}
-		r.trace = append(r.trace, sr)
+		es := normErr(err)
+		if fault {
+			es = "fault:" + es
+		}
+		ei := 0
+		if es != "" {
+			for i, e := range r.errNames {
+				if e == es {
+					ei = i + 1
+				}
+			}
+			if ei == 0 && len(r.errNames) < 250 {
+				r.errNames = append(r.errNames, es)
+				ei = len(r.errNames)
+			}
+			h = fnv(h, []byte(es))
+		}
+		h = fnv(h, a[:])
+		h = fnv(h, []byte{op, byte(depth), byte(depth >> 8), byte(pc), byte(pc >> 8), byte(pc >> 16)})
+		r.trace = append(r.trace, stepRec{Digest: h, PC: uint32(pc), Depth: uint16(depth), Op: op, ErrIdx: uint8(ei)})
+		if len(r.addrTrace) == 0 || r.addrTrace[len(r.addrTrace)-1].a != a {
+			r.addrTrace = append(r.addrTrace, addrAt{len(r.trace) - 1, a})
+		}
 	}
 	if err != nil {
 		r.errs[normErr(err)]++
